@@ -93,10 +93,8 @@ func run(c Case) (outcome, error) {
 			// ancestor, and a pruning may keep two tips: fewer than three tips can remain,
 			// which ends the history (the operations are only required to cope with trees on
 			// >= 3 tips). A two-tip result that was reported as a success is still judged.
-			if nt == 2 {
-				if serr := gt.Structural(st.T); serr != nil {
-					return oc, fmt.Errorf("after step %d (%s) on %s: two tips remain, reported as a success: %v", i, op.Kind, clip(before), serr)
-				}
+			if serr := gt.Structural(st.T); serr != nil {
+				return oc, fmt.Errorf("after step %d (%s) on %s: %d tip(s) remain, reported as a success: %v", i, op.Kind, clip(before), nt, serr)
 			}
 			oc.applied--
 			break
